@@ -394,6 +394,10 @@ class BuiltinMixin:
             raise Unsupported('dict display method %s' % name)
         if isinstance(t, TRef):
             return self.obj_method_builtin(recv, t.cls, name, args, kwargs)
+        if t is TInt and name == 'to_bytes':
+            hook = self.spec.callbacks.get('int_method')
+            if hook is not None:
+                return hook(self, [recv] + list(args), kwargs)
         raise Unsupported('method %s of %s' % (name, t))
 
     def opaque_list(self, v):
